@@ -45,7 +45,7 @@ def features(lib):
 def run(chk):
     thorough = chk.tier == "thorough"
     cfg = os.path.join(chk.workdir, "gdssem.cfg")
-    open(cfg, "w").write("SPECIFICATION Spec\nINVARIANTS CountOK Emit\nCHECK_DEADLOCK FALSE\n")
+    open(cfg, "w").write("SPECIFICATION Spec\nINVARIANTS CountOK QuadPointsOK Emit\nCHECK_DEADLOCK FALSE\n")
     r = chk.tlc.check(os.path.join(D, "MC_GdsSemantics.tla"), cfg, timeout=3600)
     chk.add_tlc("MC_GdsSemantics hierarchies, arrays, labels, malformed libraries", r)
     chk.tlc_must_pass("MC_GdsSemantics", r)
